@@ -31,6 +31,7 @@ inductive SPred where
   | minLen (n : Nat) | maxLen (n : Nat) | lenEq (n : Nat)
   | startsWith (b : Bytes) | endsWith (b : Bytes) | includes (b : Bytes)
   | lowercase | uppercase
+  | regex (k : Nat)           -- `Regex` with a pattern of the harness' fixed family (see `regexFamily`)
   | custom (k : Nat)          -- refine / when callbacks of the harness' fixed family
   deriving Repr, DecidableEq
 
@@ -63,6 +64,16 @@ def customTr (k : Nat) (b : Bytes) : Bytes :=
   | 1 => 62 :: b                    -- prepend '>'
   | _ => b.reverse
 
+/-- The documented meaning of the fixed pattern family, written directly on bytes (RE2 semantics:
+    unanchored search unless anchored; `.` does not match a newline):
+      0: `^[a-z]+$`   1: `[0-9]`   2: `^a.*z$`   3: `^(ab)*$` -/
+def regexFamily (k : Nat) (b : Bytes) : Bool :=
+  match k % 4 with
+  | 0 => !b.isEmpty && b.all (fun c => 97 ≤ c && c ≤ 122)
+  | 1 => b.any (fun c => 48 ≤ c && c ≤ 57)
+  | 2 => b.length ≥ 2 && b.head? == some 97 && b.getLast? == some 122 && !(b.contains 10)
+  | _ => b.length % 2 == 0 && (List.range (b.length / 2)).all (fun i => b[2 * i]? == some 97 && b[2 * i + 1]? == some 98)
+
 def holds : SPred → Bytes → Bool
   | .minLen n, b => b.length ≥ n
   | .maxLen n, b => b.length ≤ n
@@ -72,6 +83,7 @@ def holds : SPred → Bytes → Bool
   | .includes p, b => isInfix p b
   | .lowercase, b => b.all (fun c => !(65 ≤ c && c ≤ 90))
   | .uppercase, b => b.all (fun c => !(97 ≤ c && c ≤ 122))
+  | .regex k, b => regexFamily k b
   | .custom k, b => customPred k b
 
 def apply : SOw → Bytes → Bytes
